@@ -520,6 +520,12 @@ impl<'buf> ModuleReader<'buf> {
         if self.header.e_shoff == 0 {
             return Err(Error::NoSections);
         }
+        // A loaded image is described by its program headers. An object without any (a
+        // relocatable object that something has mapped as plain data) has no loaded form: its
+        // sections cannot be found by address, only in the file.
+        if self.module_memory.is_process_memory() {
+            self.read_program_headers()?;
+        }
 
         let section_headers_data = self.module_memory.read(
             self.header.e_shoff,
